@@ -30,6 +30,8 @@ COMPONENTS = {"real": ["litex.soc.integration.soc.SoCBusHandler/SoCRegion/SoCIOR
 CHUNK = 40
 
 
+SEEDED_SCALE = {"quick": 200, "thorough": 300}      # multiplies the run counts of the sampled families in plan()
+
 def plan(tier):
     if tier == "quick":
         return [("bus", 1500), ("locs", 1000), ("platform", 600)]
